@@ -493,6 +493,71 @@ def good_enum_phases():
     return Sequencer
 
 
+def _bound_by_defaults(clk, src, dst):
+    """shared helper: the synthesizable functions capture nothing, their objects arrive as default arguments -- every call
+    creates new function objects from the same `def` with other defaults"""
+    @std.concurrent
+    def logic(src=src, dst=dst):
+        dst.next = ~src
+
+    held = Signal[BitVector[4]](Null)
+
+    @std.sequential(std.Clock(clk))
+    def proc(src=src, held=held):
+        held.next = src
+    return held
+
+
+def good_defaults_a():
+    class PassA(Entity):
+        clk = Port.input(Bit)
+        a_in = Port.input(BitVector[4])
+        a_out = Port.output(BitVector[4])
+        a_reg = Port.output(BitVector[4])
+
+        def architecture(self):
+            h = _bound_by_defaults(self.clk, self.a_in, self.a_out)
+
+            @std.concurrent
+            def out(h=h):
+                self.a_reg <<= h
+    return PassA
+
+
+def good_defaults_b():
+    class PassB(Entity):
+        clk = Port.input(Bit)
+        b_in = Port.input(BitVector[4])
+        b_out = Port.output(BitVector[4])
+        other = Port.output(BitVector[4])
+
+        def architecture(self):
+            h = _bound_by_defaults(self.clk, self.b_in, self.b_out)
+            g = _bound_by_defaults(self.clk, h, self.other)
+    return PassB
+
+
+class FixedDefaults(Entity):
+    """module level: recompiled in histories; the default of `blink` is a Signal created per elaboration"""
+    clk = Port.input(Bit)
+    led = Port.output(Bit, default=False)
+
+    def architecture(self):
+        state = Signal[Bit](False, name='state')
+
+        @std.sequential(std.Clock(self.clk))
+        def blink(state=state):
+            state.next = ~state
+
+        @std.concurrent
+        def show(state=state):
+            self.led <<= state
+
+
+def good_fixed_defaults():
+    return FixedDefaults
+
+
 GOOD = {k[5:]: v for k, v in list(globals().items()) if k.startswith('good_')}
 
 
